@@ -3,7 +3,8 @@
 
 def setup(register, COMMON_TB):
     register(
-        "C15", coq="C15", pkg="./internal/mode/static/nginx/config/", test="TestVerifC15",
+        "C15", coq="C15", coq_extra=["k8s", "ngx", "C02"], pkg="./internal/mode/static/nginx/config/", test="TestVerifC15",
+        extra=[{"pkg": "./internal/mode/static/", "test": "TestVerifC15Pipe"}],
         rule="1-3 backend groups per case (lengths 0..20, mostly 2..16, ramping with the index), weights 0..10^6 from ten "
              "families (equal, extremes, exact shares W | w*10^4, uniform, small, dominant, canary, log-uniform, all zero; "
              "a zero last weight in a third of them), random validity patterns and repeated upstream names; "
